@@ -291,6 +291,10 @@ def decide(prop: str, vres: dict, kani: dict, tier: str, seed: int, t0: float, m
         'cache_hit': vres.get('cache_hit'),
         'kani': [h for h in (kani or {}).get('harnesses', []) if prop in h.get('properties', [])],
         'bounded': [{'harness': h['name'], 'bound': h.get('bound')} for h in (kani or {}).get('harnesses', []) if prop in h.get('properties', []) and h.get('bounded')],
+        # proof functions of the specification library (spec/*.rs): lemmas Verus proved on this run (a failing one makes every
+        # property undecided); the spec-level round-trip lemmas serve C04/C05
+        'spec_lemmas_proved': len([k for k, v in vfn.items() if k.count('::') == 1 and all(x.get('success') for x in v) and any(x.get('mode') == 'proof' for x in v)]),
+        'roundtrip_lemmas_proved': sorted(k.split('::')[-1] for k, v in vfn.items() if k.endswith('_roundtrip') and all(x.get('success') for x in v)) if prop in ('C04', 'C05') else None,
         'extraction_rules_applied': len(rep.get('rules', [])),
         'items_dropped': len(rep.get('dropped', [])),
     }
